@@ -45,8 +45,35 @@ type ptrFieldLV struct {
 
 func (l *ptrFieldLV) load(st *State) *Value { return l.fc.e.readFieldAt(st, l.ssh, l.f, l.ref) }
 func (l *ptrFieldLV) store(st *State, v *Value) {
-	l.fc.frameCheck(st, l.ssh, l.f, l.ref, l.node)
-	l.fc.e.writeFieldAt(st, l.ssh, l.f, l.ref, v)
+	l.fc.storeField(st, l.ssh, l.f, l.ref, v, l.node)
+}
+
+// storeField writes a field at a reference, checking the frame only for the
+// heap keys whose contents actually change (an embedded struct is written
+// field by field).
+func (fc *FuncCtx) storeField(st *State, ssh *Shape, f *Field, ref string, v *Value, node ast.Node) {
+	e := fc.e
+	if f.Embedded && f.Sh.Kind == KStruct {
+		o := 0
+		for _, sf := range f.Sh.Fields {
+			n := e.nLeaves(sf.Sh)
+			fc.storeField(st, f.Sh, sf, ref, &Value{Sh: sf.Sh, L: v.L[o : o+n]}, node)
+			o += n
+		}
+		return
+	}
+	old := e.readFieldAt(st, ssh, f, ref)
+	same := true
+	for i := range old.L {
+		if old.L[i] != v.L[i] {
+			same = false
+		}
+	}
+	if same {
+		return
+	}
+	fc.frameCheckKey(st, e.fieldKey(ssh, f.Name, f.Sh), ref, node)
+	e.writeFieldAt(st, ssh, f, ref, v)
 }
 func (l *ptrFieldLV) shape() *Shape { return l.f.Sh }
 
@@ -292,7 +319,7 @@ func (fc *FuncCtx) frameCheckKey(st *State, key string, ref string, node ast.Nod
 }
 
 func (fc *FuncCtx) framePermits(st *State, key, ref string) string {
-	alts := []string{"(>= " + ref + " " + fc.entry.alloc + ")"}
+	alts := []string{"(>= " + ref + " " + fc.entry.alloc + ")", eq(ref, "0")}
 	for _, m := range fc.modTargets(fc.contract, fc.entry, fc.entry, nil, fc.decl.Body.Lbrace+1) {
 		if m.key != key && !(m.isMap && strings.HasPrefix(key, m.key)) {
 			continue
@@ -326,6 +353,10 @@ func (fc *FuncCtx) modTargets(c *Contract, st *State, old *State, names map[stri
 	}
 	for _, m := range c.Modifies {
 		m = strings.TrimSpace(m)
+		if _, isGhost := e.globals[m]; isGhost {
+			out = append(out, modTarget{ghost: m})
+			continue
+		}
 		switch {
 		case m == "":
 		case strings.HasPrefix(m, "ghost "):
@@ -336,13 +367,13 @@ func (fc *FuncCtx) modTargets(c *Contract, st *State, old *State, names map[stri
 			out = append(out, modTarget{elems: strings.TrimSpace(m[6 : len(m)-1])})
 		case strings.HasPrefix(m, "all(") && strings.HasSuffix(m, ")"):
 			inner := strings.TrimSpace(m[4 : len(m)-1])
-			k := strings.LastIndex(inner, ".")
-			if k < 0 {
-				specFail("modifies all(Type.Field) expected: %q", m)
-			}
 			env := &SpecEnv{e: e, st: st, cf: c.CF, pkg: e.pkgForCF(c.CF)}
 			if env.pkg == nil {
 				env.pkg = fc.pkg
+			}
+			k := strings.LastIndex(inner, ".")
+			if k < 0 && !strings.HasPrefix(inner, "map[") {
+				specFail("modifies all(Type.Field) expected: %q", m)
 			}
 			if strings.HasPrefix(inner, "map[") {
 				// all(map[K]V): every map of that type
@@ -446,12 +477,20 @@ func (e *Engine) pkgForCFOr(cf *ContractFile, def *packages.Package) *packages.P
 
 // fieldTargets resolves a field name (possibly promoted through an embedded struct) to heap keys.
 func (fc *FuncCtx) fieldTargets(ssh *Shape, fname string, ref string, all bool) []modTarget {
+	t := fc.fieldTargets1(ssh, fname, ref, all)
+	if t == nil {
+		specFail("modifies: no field %s in %s", fname, ssh)
+	}
+	return t
+}
+
+func (fc *FuncCtx) fieldTargets1(ssh *Shape, fname string, ref string, all bool) []modTarget {
 	e := fc.e
 	if f := e.findField(ssh, fname); f != nil {
 		if f.Embedded && f.Sh.Kind == KStruct {
 			var out []modTarget
 			for _, sf := range f.Sh.Fields {
-				out = append(out, fc.fieldTargets(f.Sh, sf.Name, ref, all)...)
+				out = append(out, fc.fieldTargets1(f.Sh, sf.Name, ref, all)...)
 			}
 			return out
 		}
@@ -459,12 +498,11 @@ func (fc *FuncCtx) fieldTargets(ssh *Shape, fname string, ref string, all bool) 
 	}
 	for _, f := range ssh.Fields {
 		if f.Embedded && f.Sh.Kind == KStruct {
-			if t := fc.fieldTargets(f.Sh, fname, ref, all); t != nil {
+			if t := fc.fieldTargets1(f.Sh, fname, ref, all); t != nil {
 				return t
 			}
 		}
 	}
-	specFail("modifies: no field %s in %s", fname, ssh)
 	return nil
 }
 
@@ -617,6 +655,8 @@ func (fc *FuncCtx) readFacts(st *State, v *Value) {
 	for _, f := range fc.e.typeFacts(v) {
 		st.assume(f)
 	}
+	// references held in memory point to allocated objects
+	fc.allocFacts(st, v)
 }
 
 func (fc *FuncCtx) typeIs(v *Value, t types.Type) string {
@@ -728,21 +768,18 @@ func (fc *FuncCtx) evalBinary(n *ast.BinaryExpr, st *State) *Value {
 	switch n.Op {
 	case token.LAND, token.LOR:
 		l := fc.evalCond(n.X, st)
-		// evaluate the right operand under the guard
+		// the right operand is evaluated only under the guard: fork, evaluate, join
 		guard := l
 		if n.Op == token.LOR {
 			guard = not(l)
 		}
-		nf := len(st.facts)
-		st.pc = append(st.pc, guard)
-		heapBefore := fmt.Sprint(len(st.heap), st.alloc)
-		r := fc.evalCond(n.Y, st)
-		st.pc = st.pc[:len(st.pc)-1]
-		_ = heapBefore
-		// facts learned while evaluating the right operand hold only under the guard
-		for i := nf; i < len(st.facts); i++ {
-			st.facts[i] = imp(guard, st.facts[i])
-		}
+		rhsSt := st.clone()
+		rhsSt.pc = append(rhsSt.pc, guard)
+		r := fc.evalCond(n.Y, rhsSt)
+		skipSt := st.clone()
+		skipSt.pc = append(skipSt.pc, not(guard))
+		merged := fc.e.merge([]*State{rhsSt, skipSt})
+		*st = *merged
 		if n.Op == token.LAND {
 			return scalar(shBool, and(l, r))
 		}
